@@ -95,8 +95,10 @@ Definition visit_if_elseG (p : N) (c : cond) (p1 : N) (op1 : st -> gres) (p2 : N
    lg1 ++ lg2).
 
 Definition visit_whileG (c : cond) (body_lo : N) (body : st -> gres) (x : st) : gres :=
-  let '(a, r, lg) := body (child_enter KLoop x) in
-  (visit_cond c (child_exit fx KLoop body_lo x (while_post_r r c body_lo a)), None, lg).
+  let x0 := if fixF fx then visit_cond c x else x in
+  let '(a, r, lg) := body (child_enter KLoop x0) in
+  let y := child_exit fx KLoop body_lo x0 (while_post_r r c body_lo a) in
+  (if fixF fx then y else visit_cond c y, None, lg).
 
 Definition visit_do_whileG (p : N) (c : cond) (body_lo : N) (body : st -> gres) (x : st) : gres :=
   let '(a, r, lg) := body (child_enter KLoop x) in
@@ -104,7 +106,7 @@ Definition visit_do_whileG (p : N) (c : cond) (body_lo : N) (body : st -> gres) 
   let x1 := child_exit fx KLoop body_lo x a2 in
   (* info[body_lo].end as re-marked by the Loop scope exit *)
   let r2 := match s_end (sc a2) with Some e => mark_val (s_end (sc x)) e | None => None end in
-  (dowhile_tail r2 p c x1,
+  (dowhile_tail fx (s_end (sc x)) r2 p c x1,
    match r2 with Some e => if is_forced e then mark_val (s_end (sc x1)) e else None | None => None end,
    lg).
 
